@@ -372,6 +372,11 @@ func opGenesis(g *G) (interface{}, []uint64, int, interface{}) {
 			out.Cached = again == net
 		}
 	}
+	return finishGenesisCase(g, in, out, gn, net, err)
+}
+
+// finishGenesisCase dumps the genome, the network and the answers of the graph view for all ids / ordered id pairs
+func finishGenesisCase(g *G, in *genesisIn, out *genesisOut, gn *genetics.Genome, net *network.Network, err error) (interface{}, []uint64, int, interface{}) {
 	in.Genome = dumpGenome(gn)
 	out.Err = genesisErrClass(err)
 	if err != nil || net == nil {
